@@ -348,6 +348,7 @@ package vanguard
 //@   modifies w.writingEnvelope, w.current, w.mustReleaseCurrent, w.currentIsTrailer, w.trailerIsCompressed, w.remainingBytes, w.err, owned(unbox(w.current, *bytes.Buffer)), owned(w.rw.buf), #RWB
 
 //@ func (*envelopingWriter).handleTrailer
+//@   atcall[C10] (*compressionPool).decompressLimit: arg(3) == limitOf(w.rw.op)
 //@   requires validEW(w) && relInv(w)
 //@   requires w.current != nil && w.initialized
 //@   requires w.rw.op.serverEnveloper != nil
@@ -395,11 +396,13 @@ package vanguard
 //@   requires m != nil && m.buf != nil && validOp(op)
 //@   requires[C14] owned(m.buf)
 //@   ensures[C14] owned(m.buf) && (m.buf != old(m.buf) ==> !owned(old(m.buf)) && !wasOwned(m.buf))
-//@   atcall[C01] (*compressionPool).decompress: arg(0) == ite(m.isRequest, op.client.reqCompression, op.client.respCompression) && arg(2) == m.buf
-//@   track pd = (*compressionPool).decompress
+//@   atcall[C01] (*compressionPool).decompressLimit: arg(0) == ite(m.isRequest, op.client.reqCompression, op.client.respCompression) && arg(2) == m.buf
+//@   track pd = (*compressionPool).decompressLimit
 //@   ensures[C01] pd == ite(ite(m.isRequest, op.client.reqCompression, op.client.respCompression) != nil && old(blen(m.buf)) != 0, 1, 0)
 //@   ensures[C09] m.buf != nil && m.stage == old(m.stage)
 //@   ensures[C09] err != nil ==> m.buf == old(m.buf)
+//@   ensures[C10] err == nil && m.buf != old(m.buf) ==> blen(m.buf) <= limitOf(op)
+//@   atcall[C10] (*compressionPool).decompressLimit: arg(3) == limitOf(op)
 //@   modifies m.buf, owned(m.buf), blen(m.buf), #LIB
 
 //@ func (*message).compress
@@ -482,6 +485,7 @@ package vanguard
 //@   opt inline
 
 //@ func (*transformingWriter).flushMessage
+//@   atcall[C10] (*compressionPool).decompressLimit: arg(3) == limitOf(w.rw.op)
 //@   dispatch (io.Writer).Write: *limitWriter
 //@   requires validTW(w) && w.buffer != nil && w.buffer == w.msg.buf && w.err == nil && owned(w.buffer) && w.buffer != w.rw.buf
 //@   requires w.latestEnvelope.trailer ==> w.rw.op.serverEnveloper != nil
@@ -538,6 +542,7 @@ package vanguard
 //@   modifies #LIB
 
 //@ func (*errorWriter).Close
+//@   atcall[C10] (*compressionPool).decompressLimit: arg(3) == limitOf(e.rw.op)
 //@   requires validErrW(e) && e.processBody != nil
 //@   step rwStep(e.rw)
 //@   ensures[C03,C09] rwInv(e.rw) && e.rw.endWritten && e.buffer == nil && e.rw == old(e.rw)
@@ -589,7 +594,7 @@ package vanguard
 //@   atcall[C15] (*sync.Pool).Put: resets == 1
 //@   modifies blen(dst), blen(src)
 
-//@ func (*compressionPool).decompress
+//@ func (*compressionPool).decompressLimit
 //@   requires dst != nil && src != nil
 //@   requires[C14] owned(dst) && owned(src)
 //@   track gets = (*sync.Pool).Get
@@ -598,6 +603,7 @@ package vanguard
 //@   ensures[C15] p != nil ==> gets == 1 && puts == 1 && resets == 1
 //@   ensures[C15] p == nil ==> gets == 0 && puts == 0
 //@   atcall[C15] (*sync.Pool).Put: resets == 1
+//@   ensures[C10] p != nil && err == nil ==> blen(dst) <= limit
 //@   modifies blen(dst), blen(src)
 
 //@ func (*bufferPool).Get
@@ -1036,9 +1042,10 @@ package vanguard
 // The GET message is URL-safe base64 (unpadded first, padded as the only fallback), then goes through
 // the client's decompressor and the client's codec, exactly like a POST body.
 //@ func (connectUnaryGetClientProtocol).prepareUnmarshalledRequest
+//@   atcall[C10] (*compressionPool).decompressLimit: arg(3) == limitOf(op)
 //@   requires validOp(op) && op.request.URL != nil && op.bufferPool != nil
 //@   track decs = (*encoding/base64.Encoding).DecodeString
 //@   atcall[C19] (*encoding/base64.Encoding).DecodeString: decs <= 2 && (decs == 1 ==> arg(0) == base64.RawURLEncoding) && (decs == 2 ==> arg(0) == base64.URLEncoding)
 //@   atcall[C19,C01] (vanguard.Codec).Unmarshal: arg(0) == op.client.codec
-//@   atcall[C19,C01] (*compressionPool).decompress: arg(0) == op.client.reqCompression
+//@   atcall[C19,C01] (*compressionPool).decompressLimit: arg(0) == op.client.reqCompression
 //@   ensures[C19] len(src) > 0 ==> r0 != nil
